@@ -112,7 +112,24 @@ class C07(CheckBase):
                     for phase in (["pre", "post"] if cause in ("force_disconnect", "disconnect", "cancel") else ["pre"]):
                         yield with_cause(base, cause, {"turn": n}, phase, rng)
         else:
-            yield gen_session(rng)
+            scn = gen_session(rng)
+            if rng.random() < 0.7:
+                # the application reconnects from inside its stop callback (at once or after yielding); the session made
+                # there ends later for another reason: its stop callback has to run as well
+                scn["on_stop_do"] = {"do": pick(rng, ["connect", "connect", "start"]), "yields": pick(rng, [0, 0, 1, 2]), "max": pick(rng, [1, 1, 2]), "login": rng.random() < 0.5}
+                tail: list = [{"do": "sleep", "d": pick(rng, [0.5, 2.0])}]
+                how = pick(rng, ["disconnect", "force", "dev", "fin"])
+                if how in ("disconnect", "force"):
+                    tail.append({"do": "disconnect", "force": how == "force"})
+                else:
+                    tail.append({"do": "sleep", "d": 5.0})
+                    trig = {"on": "op_end", "match": {"actor": "onstop"}, "delay": pick(rng, [0.01, 1.0])}
+                    if how == "dev":
+                        scn["events"].append({"at": trig, "do": "dev", "act": {"msgs": [["DisconnectRequest", {}]], "latency": 0.0}})
+                    else:
+                        scn["events"].append({"at": trig, "do": "fault", "kind": "fin", "latency": 0.0})
+                scn["actors"][0]["steps"] += tail
+            yield scn
 
     def oracle(self, run: Any, scn: dict) -> list[Violation]:
         return on_stop_oracle(Index(run.history))
